@@ -3,6 +3,8 @@ package lockstress
 import (
 	"fmt"
 	"net"
+	"runtime"
+	"strings"
 	"sync"
 	"sync/atomic"
 	"time"
@@ -35,6 +37,8 @@ func lookupCase(name string) caseFn {
 		return witnessLeak
 	case "witness/stop-after-cease":
 		return witnessStopAfterCease
+	case "witness/refresh-addpath-nonpropagated":
+		return regressRefreshNonPropagated
 	case "witness/race-route-paths":
 		return witnessRaceRoutePaths
 	case "witness/race-adjribin-unregister":
@@ -174,18 +178,39 @@ func (p *pipeline) preload() {
 // workers runs g goroutines of n random operations each
 func workers(a args, op func(r *hx.RNG, w int)) {
 	var wg sync.WaitGroup
+	var first atomic.Value // a panic of the code under test in a worker is reported as the outcome of the case
 	root := hx.NewRNG(a.seed)
 	for w := 0; w < a.g; w++ {
 		wg.Add(1)
 		r := root.Fork(uint64(w))
 		go func(w int) {
 			defer wg.Done()
+			defer func() {
+				if p := recover(); p != nil {
+					buf := make([]byte, 1<<14)
+					buf = buf[:runtime.Stack(buf, false)]
+					first.CompareAndSwap(nil, fmt.Sprintf("%v in %s", p, panicFrame(string(buf))))
+				}
+			}()
 			for i := 0; i < a.n; i++ {
 				op(r, w)
 			}
 		}(w)
 	}
 	wg.Wait()
+	if p := first.Load(); p != nil {
+		panic(p)
+	}
+}
+
+// panicFrame: the innermost bio-rd function on the stack of a panic
+func panicFrame(stack string) string {
+	for _, l := range strings.Split(stack, "\n") {
+		if strings.HasPrefix(l, modPrefix) && !strings.Contains(l, ".Verif") {
+			return canonFunc(l)
+		}
+	}
+	return "?"
 }
 
 func (p *pipeline) readOp(r *hx.RNG) {
@@ -745,6 +770,43 @@ func witnessLockOrder(a args) string {
 	time.Sleep(300 * time.Millisecond) // T2 holds AdjRIBOut.mu and waits for LocRIB.mu
 	close(g.release)
 	wg.Wait()
+	return ""
+}
+
+// Regression (must complete): an export policy replacement on add-path sessions whose Loc-RIB holds paths that are
+// never propagated to them (iBGP-learned path towards an iBGP non-client; OTC route towards a provider).  Every such
+// outcome of checkPropagateUpdate that withdrew the prefix (removePathsForPrefix locks a.mu) from inside RefreshRoute
+// would block ReplaceFilterChain on its own mutex -- the path the lock table lists as the (infeasible) self edge.
+func regressRefreshNonPropagated(a args) string {
+	v, err := vrf.New(fmt.Sprintf("w-%d", vrfSeq.Add(1)), 3000+vrfSeq.Add(1))
+	if err != nil {
+		return err.Error()
+	}
+	lr := v.IPv4UnicastRIB()
+	ibgp := sessionAttrs(1, true)
+	ibgp.IBGP, ibgp.PeerASN = true, ibgp.LocalASN
+	prov := sessionAttrs(2, true)
+	prov.PeerRoleEnabled, prov.PeerRoleAdvByPeer, prov.PeerRoleRemote = true, true, packet.PeerRoleRoleProvider
+	var outs []*adjRIBOut.AdjRIBOut
+	for _, sa := range []routingtable.SessionAttrs{ibgp, prov} {
+		out := adjRIBOut.New(lr, sa, filter.NewAcceptAllFilterChain())
+		out.Register(&countClient{})
+		lr.RegisterWithOptions(out, routingtable.ClientOptions{MaxPaths: 4})
+		outs = append(outs, out)
+	}
+	for i := 0; i < 4; i++ {
+		p := bgpPath(0, i)
+		p.BGPPath.BGPPathA.EBGP = i%2 == 0 // every second path was learned over iBGP
+		if i >= 2 {
+			p.BGPPath.BGPPathA.OnlyToCustomer = 65300 // must not go to a provider
+		}
+		lr.AddPath(pfx(i%2), p)
+	}
+	for round := 0; round < 3; round++ {
+		for _, out := range outs {
+			out.ReplaceFilterChain(chainVariant(round + 1))
+		}
+	}
 	return ""
 }
 
